@@ -45,35 +45,53 @@ def variants(label, model):
     return out
 
 
-def start_models(thorough):
+GEN_MODELS = {
+    'gen:eta_forms': ('ADVAN2 TRANS2', ['CL = THETA(1)*EXP(THETA(4)*ETA(1))', 'V = THETA(2)*EXP(ETA(2)*WGT/70)',
+                                        'KA = THETA(3) + ETA(3)', 'S2 = V'], True),
+    'gen:logit_shared': ('ADVAN1 TRANS2', ['TVCL = THETA(1)*(WGT/70)**THETA(3)', 'CL = TVCL*EXP(ETA(1))',
+                                           'V = THETA(2)*EXP(ETA(2) + 0.5*ETA(1))',
+                                           'F1 = EXP(THETA(4)+ETA(1))/(1+EXP(THETA(4)+ETA(1)))', 'S1 = V'], False),
+}
+# quick tier visits these first (small models + the generated ones), the rest in seeded order within the budget
+PRIORITY = ['minimal.mod', 'pheno_pd.mod', 'models/mox2.mod', 'models/pheno5.mod', 'gen:eta_forms', 'gen:logit_shared',
+            'pheno_real.mod', 'example:pheno_linear']
+_MODELS = {}
+
+
+def start_labels():
     corpus = _W['corpus']
-    out = []
-    for label, m in corpus.core_models():
-        if isinstance(m, Exception):
-            continue
-        out.append((label, m))
-    # generated control streams with less common eta / covariate forms (scaled eta inside the exponential, additive and
-    # logit etas, eta shared by two parameters)
-    try:
+    labels = [rel for rel in corpus.CORE_FILES if os.path.exists(os.path.join(corpus.TESTDATA, rel))]
+    return labels + list(GEN_MODELS) + ['example:pheno', 'example:pheno_linear']
+
+
+def get_start(label):
+    """load one start model (cached per worker process); raises if it cannot be read in this environment."""
+    if label in _MODELS:
+        return _MODELS[label]
+    corpus, pm = _W['corpus'], _W['pm']
+    if label.startswith('example:'):
+        m = pm.load_example_model(label.split(':')[1])
+    elif label.startswith('gen:'):
         sys.path.insert(0, os.path.dirname(os.path.abspath(__file__)))
         import C01
-        gen = {
-            'gen:eta_forms': C01.pk_program('ADVAN2 TRANS2', [
-                'CL = THETA(1)*EXP(THETA(4)*ETA(1))', 'V = THETA(2)*EXP(ETA(2)*WGT/70)', 'KA = THETA(3) + ETA(3)',
-                'S2 = V']).replace('$OMEGA 0.2', '$OMEGA 0.2\n$OMEGA 0.3'),
-            'gen:logit_shared': C01.pk_program('ADVAN1 TRANS2', [
-                'TVCL = THETA(1)*(WGT/70)**THETA(3)', 'CL = TVCL*EXP(ETA(1))',
-                'V = THETA(2)*EXP(ETA(2) + 0.5*ETA(1))', 'F1 = EXP(THETA(4)+ETA(1))/(1+EXP(THETA(4)+ETA(1)))', 'S1 = V']),
-        }
-        for label, text in gen.items():
-            out.append((label, _W['pm'].read_model_from_string(text)))
-    except Exception:  # noqa
-        pass
-    for ex in ('pheno', 'pheno_linear'):
+        sub, pk, three = GEN_MODELS[label]
+        text = C01.pk_program(sub, pk)
+        if three:
+            text = text.replace('$OMEGA 0.2', '$OMEGA 0.2\n$OMEGA 0.3')
+        m = pm.read_model_from_string(text)
+    else:
+        m = corpus.load(os.path.join(corpus.TESTDATA, label))
+    _MODELS[label] = m
+    return m
+
+
+def start_models(thorough):
+    out = []
+    for label in start_labels():
         try:
-            out.append((f'example:{ex}', _W['pm'].load_example_model(ex)))
+            out.append((label, get_start(label)))
         except Exception:  # noqa
-            pass
+            continue
     return out
 
 
@@ -363,8 +381,12 @@ def run_case(case):
     eq = sym2smt.Equiv(timeout_ms=20000)
     out = dict(case=case, results=[], queries=0, solver_s=0.0, stats={}, skipped=None)
     try:
-        base = dict(start_models(False))[label]
-        m = dict(variants(label, base))[vname]()
+        base = get_start(label)
+        vs = dict(variants(label, base))
+        if vname not in vs:
+            out['skipped'] = 'variant not applicable'
+            return out
+        m = vs[vname]()
     except Exception as e:  # noqa
         out['skipped'] = f'start model not available: {type(e).__name__}: {e}'[:200]
         return out
@@ -412,25 +434,24 @@ def main():
         sys.exit(replay(sys.argv[sys.argv.index('--replay') + 1]))
     run = Run('C07', 'translation_validation')
     thorough = run.tier == 'thorough'
-    budget = 1500 if thorough else 230
+    budget = 1500 if thorough else 170
     _init()
-    models = start_models(thorough)
+    labels = start_labels()
     rnames = list(refactorings()) + ['solve_ode_system', 'extractors', 'unused_exact']
+    VARIANT_NAMES = ['', '+prop_error', '+iiv_joint', '+peripheral', '+fo_abs', '+mm_elim']
     cases = []
-    for label, m in models:
-        vs = variants(label, m)
-        for vname, _ in (vs if thorough else vs[:1] + vs[3:4]):
+    for label in labels:
+        for vn in (VARIANT_NAMES if thorough else ['', '+peripheral']):
             for r in rnames:
-                cases.append((label, vname, r))
+                cases.append((label, label + vn, r))
     if not thorough:
-        # quick: 5 smallest corpus models with all refactorings; the rest in seeded order within the budget
         import random
-        small = [l for l, m in sorted(models, key=lambda x: len(x[1].statements))[:6]] + \
-            [l for l, _ in models if l.startswith('gen:')]
-        first = [c for c in cases if c[0] in small]
-        rest = [c for c in cases if c[0] not in small]
+        first = [c for c in cases if c[0] in PRIORITY]
+        first.sort(key=lambda c: PRIORITY.index(c[0]))
+        rest = [c for c in cases if c[0] not in PRIORITY]
         random.Random(run.seed).shuffle(rest)
         cases = first + rest
+    models = [(l, None) for l in labels]
     nproc = int(os.environ.get('VERIF_JOBS', 0)) or min(16, os.cpu_count() or 4)
     t0 = time.time()
     stats = dict(unsat=0, sat_confirmed=0, sat_unreplayable=0, unknown=0, unsupported=0)
@@ -439,7 +460,15 @@ def main():
     viol = {}
     cut = None
     with mp.Pool(nproc, initializer=_init) as pool:
-        for res in pool.imap_unordered(run_case, cases, chunksize=1):
+        it = pool.imap_unordered(run_case, cases, chunksize=1)
+        while True:
+            try:
+                res = it.next(timeout=max(1.0, budget + 45 - (time.time() - t0)))
+            except StopIteration:
+                break
+            except mp.TimeoutError:
+                cut = f'hard deadline: stopped after {done} of {len(cases)} (model, refactoring) pairs'
+                break
             done += 1
             if res['skipped']:
                 skipped += 1
